@@ -94,3 +94,14 @@ chk("C06", "static analysis: one-step MIR transition tables vs std's SplitIntern
     "remainder() returns the remainder field. Symbolic in string and delimiter.",
     "Trusted: rustc MIR. The sequence of pieces follows from the one-step tables by the simulation argument in DESIGN.md "
     "App. D (not mechanised); find/rfind are C04, the boundary search is C07.")
+chk("C08", "static analysis: one-step MIR decision tables over (offset,count) views vs std's slice-iterator steps, forward/reverse isomorphism",
+    "next/next_back of Iter, IterCopied, Windows, Chunks::next, RChunks::next, ChunksExact, RChunksExact and ArrayChunks are "
+    "inlined down to raw (offset,count) views of the iterator's own slice and compared with std's step (item view, new "
+    "remainder view, Some/None exhaustion encoding) for every order type of (len,size) under arithmetic-consistency facts; "
+    "the two div/mod back steps (Chunks::next_back, RChunks::next_back) are accepted only as the listed idioms with the "
+    "right item/remainder parts; all 8 *Rev types must be the forward types stepping from the other end, rev()/copy() "
+    "keep the fields; constructors assert size != 0 and pre-split the exact variants at len - len%size / len%size; "
+    "remainder/as_slice accessors. Symbolic in slice length, size and element type.",
+    "Trusted: rustc MIR; arithmetic facts a-b<=a, (a-b==0 <=> a==b), a%b<b. The div/mod split points are matched against an "
+    "idiom list (an equivalent rewrite in a new idiom is reported as unrecognised). Histories follow by the simulation "
+    "argument over one-step tables (DESIGN.md App. E).")
